@@ -378,3 +378,100 @@ func (g *GatedReader) Read(b []byte) (int, error) {
 	G.evaluating = false
 	return n, err
 }
+
+// ---- io.Pipe stand-in (rewrite rule R14) ----
+//
+// The product creates one io.Pipe: between the input pump and the stop/continue menu. A real
+// io.Pipe blocks its writer outside the scheduler; this stand-in is a (buffered) Pipe with the
+// closing rules of io.Pipe. Without a scheduler it behaves like any free-running Pipe.
+
+type ioPipeState struct {
+	rclosed, wclosed bool
+}
+
+// PipeReader stands in for *io.PipeReader.
+type PipeReader struct {
+	p  *Pipe
+	st *ioPipeState
+}
+
+// PipeWriter stands in for *io.PipeWriter.
+type PipeWriter struct {
+	p  *Pipe
+	st *ioPipeState
+}
+
+// IOPipe stands in for io.Pipe().
+func IOPipe() (*PipeReader, *PipeWriter) {
+	p, st := NewPipe("iopipe"), &ioPipeState{}
+	return &PipeReader{p, st}, &PipeWriter{p, st}
+}
+
+func (w *PipeWriter) Write(b []byte) (int, error) {
+	if w.st.rclosed || w.st.wclosed {
+		return 0, io.ErrClosedPipe
+	}
+	return w.p.Write(b)
+}
+
+func (w *PipeWriter) Close() error {
+	w.st.wclosed = true
+	w.p.CloseWrite()
+	return nil
+}
+
+func (w *PipeWriter) CloseWithError(err error) error { return w.Close() }
+
+func (r *PipeReader) Read(b []byte) (int, error) {
+	if r.st.rclosed {
+		return 0, io.ErrClosedPipe
+	}
+	return r.p.Read(b)
+}
+
+func (r *PipeReader) Close() error {
+	r.st.rclosed = true
+	r.p.CloseWrite() // wakes a blocked reader
+	return nil
+}
+
+func (r *PipeReader) CloseWithError(err error) error { return r.Close() }
+
+// PromptRun is the model of promptui.Select.Run used under rule R14: the menu is drawn on stdout
+// and the keys the product's transformPromptInput produces are interpreted as the library does
+// (Ctrl-N / Ctrl-P move within the list without wrapping, Enter confirms); a closed or failing
+// stdin ends the prompt with its error.
+func PromptRun(stdin io.Reader, stdout io.Writer, items any) (int, string, error) {
+	n := 0
+	labels, _ := items.([]string)
+	n = len(labels)
+	_, _ = stdout.Write([]byte("? menu\r\n"))
+	idx := 0
+	buf := make([]byte, 64)
+	for {
+		k, err := stdin.Read(buf)
+		for _, c := range buf[:k] {
+			switch c {
+			case '\x0e':
+				if idx < n-1 {
+					idx++
+				}
+			case '\x10':
+				if idx > 0 {
+					idx--
+				}
+			case '\r', '\n':
+				_, _ = stdout.Write([]byte("\r\n"))
+				if idx < n {
+					return idx, labels[idx], nil
+				}
+				return idx, "", nil
+			case '\x03':
+				return 0, "", errors.New("^C")
+			}
+		}
+		if err != nil {
+			return 0, "", err
+		}
+	}
+}
